@@ -81,6 +81,7 @@ Section StyInd.
   Hypothesis H19 : forall t, Q t -> Q (SSeq t).
   Hypothesis H20 : forall kt, Q kt -> forall vt, Q vt -> Q (SMap kt vt).
   Hypothesis H21 : forall b t, Q t -> Q (SBox b t).
+  Hypothesis H22 : forall ls, Q (SLit ls).
   Fixpoint sty_ind' (t: sty) : Q t :=
     match t with
     | SAny => H1 | SNoneT => H2 | SIntT => H3 | SFloatT => H4 | SBoolT => H5 | SStrT => H6
@@ -108,6 +109,7 @@ Section StyInd.
     | SSeq t' => H19 t' (sty_ind' t')
     | SMap kt vt => H20 kt (sty_ind' kt) vt (sty_ind' vt)
     | SBox b t' => H21 b t' (sty_ind' t')
+    | SLit ls => H22 ls
     end.
 End StyInd.
 
@@ -535,6 +537,7 @@ Section Conf.
           | VObj c [(n, inner)] =>
               String.eqb c (box_name b) && String.eqb n "" && chain_canon b inner && conf_g inner t'
           | _ => false end
+      | SLit ls => existsb (exact_eq v) ls
       end.
 End Conf.
 Notation conf := (conf_g false).
@@ -674,6 +677,7 @@ Section C02.
         match v with
         | VObj _ [(_, inner)] => if chain_empty ch inner then Ok (VList [VDict []]) else pk E P inner e'
         | _ => Exn XAttributeError end
+    | ELit ls => lit_find ls v
     end.
   Proof. destruct v, e; reflexivity. Qed.
 
@@ -770,6 +774,7 @@ Section C02.
         match v with
         | VObj _ [(_, inner)] => if chain_empty (is_chain b) inner then Ok (VList [VDict []]) else ref_enc E P inner t'
         | _ => Exn XAttributeError end
+    | SLit ls => lit_find ls v
     end.
   Proof. destruct v, t; reflexivity. Qed.
 
@@ -860,6 +865,7 @@ Section C02.
         | VObj c [(n, inner)] =>
             String.eqb c (box_name b) && String.eqb n "" && chain_canon b inner && conf_g o E inner t'
         | _ => false end
+    | SLit ls => existsb (exact_eq v) ls
     end.
   Proof. destruct v, t; reflexivity. Qed.
 
@@ -952,7 +958,7 @@ Section C02.
     induction v as [ | b | z | f | s | m b | l IHl | l IHl | fr l IHl | kvs IHk | c fs IHf | e m | k w | c l IHl | tg ]
       using pv_rect'; unfold pk_ok.
     (* every case: inner induction on the type is only needed for SOpt, so destruct and recurse there *)
-    all: intros t; induction t as [ | | | | | | m' | k' | e' | t' IHt | fr' t' IHt | t' IHt | ts | pre mid IHmid post | kt IHkt vt IHvt | t' IHt | c' | c' | c' | t' IHt | kt IHkt vt IHvt | bx t' IHt ];
+    all: intros t; induction t as [ | | | | | | m' | k' | e' | t' IHt | fr' t' IHt | t' IHt | ts | pre mid IHmid post | kt IHkt vt IHvt | t' IHt | c' | c' | c' | t' IHt | kt IHkt vt IHvt | bx t' IHt | ls ];
       intros cbn HC HG; try (solve [apply (pk_tupleu _ _ _ _ _ IHl HC)]);
       rewrite conf_unfold in HC; rewrite ref_enc_unfold;
       try discriminate HC;
@@ -1097,7 +1103,7 @@ Section ConfMono.
   Proof.
     induction v as [ | b | z | f | s | m b | l IHl | l IHl | fr l IHl | kvs IHk | c fs IHf | e m | k w | c l IHl | tg ]
       using pv_rect'; unfold mono_ok.
-    all: intros t; induction t as [ | | | | | | m' | k' | e' | t' IHt | fr' t' IHt | t' IHt | ts | pre mid IHmid post | kt IHkt vt IHvt | t' IHt | c' | c' | c' | t' IHt | kt IHkt vt IHvt | bx t' IHt ];
+    all: intros t; induction t as [ | | | | | | m' | k' | e' | t' IHt | fr' t' IHt | t' IHt | ts | pre mid IHmid post | kt IHkt vt IHvt | t' IHt | c' | c' | c' | t' IHt | kt IHkt vt IHvt | bx t' IHt | ls ];
       intros HC; try (solve [apply (conf_tupleu_mono _ _ _ _ IHl HC)]);
       rewrite conf_unfold in HC; rewrite conf_unfold; try exact HC; try discriminate HC.
     (* Optional *)
@@ -1230,7 +1236,7 @@ Section C03.
   Lemma const_dec_cu_n n : forall t, const_dec_n E n (cu true t) = const_ty_n E n t.
   Proof.
     induction n as [|n IHn].
-    all: induction t as [ | | | | | | m' | k' | e' | t' IHt | fr' t' IHt | t' IHt | ts IHts | pre IHpre mid IHmid IHmide post IHpost | kt IHkt vt IHvt | t' IHt | c' | c' | c' | t' IHt | kt IHkt vt IHvt | bx t' IHt ]
+    all: induction t as [ | | | | | | m' | k' | e' | t' IHt | fr' t' IHt | t' IHt | ts IHts | pre IHpre mid IHmid IHmide post IHpost | kt IHkt vt IHvt | t' IHt | c' | c' | c' | t' IHt | kt IHkt vt IHvt | bx t' IHt | ls ]
       using sty_ind'; try (solve [apply const_tupleu_step; assumption]);
       cbn [cu]; rewrite const_dec_n_unfold, const_ty_n_unfold; try reflexivity.
     all: try (match goal with |- context [omapM (const_dec_n E ?m) (map (cu true) ?l)] =>
@@ -1300,6 +1306,7 @@ Section C03.
         | None => Exn XAttributeError
         | Some k => td_nondict (konst_u E) k.(sc_fields) end
     | UBox b u' => r <- uk_str E P n u' s ;; Ok (box_val b r)
+    | ULit ls => lit_find ls (VStr s)
     end.
   Proof. destruct n, u; reflexivity. Qed.
 
@@ -1350,6 +1357,7 @@ Section C03.
         | None => Exn XAttributeError
         | Some k => td_nondict (konst_t E) k.(sc_fields) end
     | SBox b t' => r <- ref_dec_str_g E P sm n t' s ;; Ok (box_val b r)
+    | SLit ls => lit_find ls (VStr s)
     end.
   Proof. destruct n, t; reflexivity. Qed.
 
@@ -1359,7 +1367,7 @@ Section C03.
   Lemma uk_str_ref n : forall t cbn s, uk_str E P n (cu cbn t) s = ref_dec_str_g E P false n t s.
   Proof.
     induction n as [|n IHn].
-    all: induction t as [ | | | | | | m' | k' | e' | t' IHt | fr' t' IHt | t' IHt | ts IHts | pre IHpre mid IHmid IHmide post IHpost | kt IHkt vt IHvt | t' IHt | c' | c' | c' | t' IHt | kt IHkt vt IHvt | bx t' IHt ]
+    all: induction t as [ | | | | | | m' | k' | e' | t' IHt | fr' t' IHt | t' IHt | ts IHts | pre IHpre mid IHmid IHmide post IHpost | kt IHkt vt IHvt | t' IHt | c' | c' | c' | t' IHt | kt IHkt vt IHvt | bx t' IHt | ls ]
       using sty_ind'; intros cbn s;
       try (rewrite (ref_dec_str_unfold _ _ (SOpt t')); destruct cbn; cbn [cu]; [rewrite uk_str_unfold|]; apply IHt);
       cbn [cu]; rewrite uk_str_unfold, ref_dec_str_unfold; try reflexivity.
@@ -1558,7 +1566,7 @@ Section C03.
     Theorem ref_dec_str_no_recursion sm n : forall t s, (need t <= n)%nat -> nrec (ref_dec_str_g E P sm n t s).
     Proof.
       induction n as [|n IHn].
-      all: induction t as [ | | | | | | m' | k' | e' | t' IHt | fr' t' IHt | t' IHt | ts IHts | pre IHpre mid IHmid IHmide post IHpost | kt IHkt vt IHvt | t' IHt | c' | c' | c' | t' IHt | kt IHkt vt IHvt | bx t' IHt ]
+      all: induction t as [ | | | | | | m' | k' | e' | t' IHt | fr' t' IHt | t' IHt | ts IHts | pre IHpre mid IHmid IHmide post IHpost | kt IHkt vt IHvt | t' IHt | c' | c' | c' | t' IHt | kt IHkt vt IHvt | bx t' IHt | ls ]
         using sty_ind'; intros s Hn; rewrite ref_dec_str_unfold;
         try (intros H; discriminate H); try apply nrec_coerce;
         try (apply nrec_bind; [apply nrec_lift | intros a H; discriminate H]);
@@ -1582,6 +1590,7 @@ Section C03.
                          [ apply (Forall_In _ _ IHmide d Hd); apply (Forall_In _ _ (need_mid_elems _ _ Hm) d Hd)
                          | apply (Forall_In _ _ IHpost d Hd); apply (Forall_In _ _ Hq d Hd) ] ] ].
       all: try solve [ apply nrec_bind; [apply IHt; exact Hn | intros a H; discriminate H] ].
+      all: try solve [ unfold lit_find; destruct (find _ _); intros H; discriminate H ].
       - (* a NamedTuple class with no fuel left: excluded by the bound *)
         cbn [need] in Hn. destruct (sfind E _ c') as [k|]; [lia | intros H; discriminate H].
       - cbn [need] in Hn. destruct (sfind E _ c') as [k|] eqn:Ef; [|intros H; discriminate H].
@@ -1648,7 +1657,7 @@ Section C03.
 
     Lemma acyclic_bound : forall t, (need (rank_n (List.length E)) t <= List.length E)%nat.
     Proof.
-      induction t as [ | | | | | | m' | k' | e' | t' IHt | fr' t' IHt | t' IHt | ts IHts | pre IHpre mid IHmid IHmide post IHpost | kt IHkt vt IHvt | t' IHt | c' | c' | c' | t' IHt | kt IHkt vt IHvt | bx t' IHt ]
+      induction t as [ | | | | | | m' | k' | e' | t' IHt | fr' t' IHt | t' IHt | ts IHts | pre IHpre mid IHmid IHmide post IHpost | kt IHkt vt IHvt | t' IHt | c' | c' | c' | t' IHt | kt IHkt vt IHvt | bx t' IHt | ls ]
         using sty_ind'; cbn [need]; try lia; try exact IHt.
       - apply need_list_le. exact IHts.
       - pose proof (need_list_le _ _ _ IHpre). pose proof (need_list_le _ _ _ IHpost). lia.
@@ -1785,6 +1794,7 @@ Section C03.
               end
           end
       | UBox b u' => r <- uk E P d u' ;; Ok (box_val b r)
+      | ULit ls => lit_find ls d
       end.
   Proof. destruct d, u; reflexivity. Qed.
 
@@ -1915,6 +1925,7 @@ Section C03.
               end
           end
       | SBox b t' => r <- ref_dec_g E P sm d t' ;; Ok (box_val b r)
+      | SLit ls => lit_find ls d
       end.
   Proof. destruct d, t; reflexivity. Qed.
 
@@ -1983,7 +1994,7 @@ Section C03.
   Proof.
     induction d as [ | b | z | f | s | m b | l IHl | l IHl | fr l IHl | kvs IHk | c fs IHf | e m | k w | c l IHl | tg ]
       using pv_rect'; unfold uk_ok.
-    all: intros t; induction t as [ | | | | | | m' | k' | e' | t' IHt | fr' t' IHt | t' IHt | ts | pre mid IHmid post | kt IHkt vt IHvt | t' IHt | c' | c' | c' | t' IHt | kt IHkt vt IHvt | bx t' IHt ];
+    all: intros t; induction t as [ | | | | | | m' | k' | e' | t' IHt | fr' t' IHt | t' IHt | ts | pre mid IHmid post | kt IHkt vt IHvt | t' IHt | c' | c' | c' | t' IHt | kt IHkt vt IHvt | bx t' IHt | ls ];
       intros cbn HG;
       try (solve [ apply uk_tupleu; cbn; intros x Hx; first [ destruct Hx | apply (Forall_In _ _ IHl x Hx) ] ]);
       cbn [cu]; try (rewrite uk_unfold, ref_dec_unfold; reflexivity).
